@@ -196,6 +196,14 @@ package floats
 //@ valid n >= 2
 //@ panics iff !valid, before-writes
 //@ writes nothing
+// documented equivalence with NearestIdx(Span(dst, l, u), v) at the ends of the span: a constant
+// span has every element at the same distance, so the first index wins; a value at or beyond an
+// end of a finite span is nearest to that end
+//@ ensures !isNaN(l) && !isNaN(u) && !isNaN(v) && l == u ==> result == 0
+//@ ensures !isNaN(v) && !isInf(l) && !isInf(u) && l < u && v <= l ==> result == 0
+//@ ensures !isNaN(v) && !isInf(l) && !isInf(u) && l < u && v >= u ==> result == n-1
+//@ ensures !isNaN(v) && !isInf(l) && !isInf(u) && l > u && v >= l ==> result == 0
+//@ ensures !isNaN(v) && !isInf(l) && !isInf(u) && l > u && v <= u ==> result == n-1
 
 // Within: the documented result. The value clauses are stated for slices
 // without NaN (sort.Float64sAreSorted puts NaNs first, so "s[0] is not NaN"
